@@ -638,7 +638,46 @@ def ob_numeric_split():
         e = Z.relerr(np.asarray(ops[name].to_dense()), np.asarray(ref))
         if e > 1e-12:
             return violated("discrete operator %s differs from the matrix expression by %.2e" % (name, e), signature="numeric-algebra/" + name, replay={"confirmed": True})
-    return held("%d operators, worst %.1e" % (len(ops), worst))
+    # lists of grid functions with mixed real / complex coefficients: the packing helpers and the application of a (real) blocked operator keep the
+    # imaginary parts whatever the position of the complex entries in the list
+    from bempp_cl.api.assembly import blocked_operator as BL
+
+    Vb = laplace.single_layer(dp0, dp0, dp0, parameters=par)
+    Kb = laplace.single_layer(p1, dp0, dp0, parameters=par)
+    blk = BL.BlockedOperator(2, 2)
+    blk[0, 0], blk[0, 1], blk[1, 1] = Vb, Kb, laplace.single_layer(p1, p1, p1, parameters=par)
+    Wd = np.asarray(blk.weak_form().to_dense())
+    c_real = [rng.randn(dp0.global_dof_count), rng.randn(p1.global_dof_count)]
+    c_cplx = [rng.randn(dp0.global_dof_count) + 1j * rng.randn(dp0.global_dof_count), rng.randn(p1.global_dof_count) + 1j * rng.randn(p1.global_dof_count)]
+    for pattern in ((0, 0), (0, 1), (1, 0), (1, 1)):
+        cs = [c_cplx[i] if pattern[i] else c_real[i] for i in range(2)]
+        fl = [api.GridFunction(dp0, coefficients=cs[0]), api.GridFunction(p1, coefficients=cs[1])]
+        stacked = np.concatenate(cs)
+        lab = "[%s]" % ", ".join("complex" if q else "real" for q in pattern)
+        vec = BL.coefficients_from_grid_functions_list(fl)
+        if Z.relerr(vec, stacked) > 1e-15 and np.abs(vec - stacked).max() > 1e-15:
+            return violated("coefficients_from_grid_functions_list(%s) loses data: max deviation %.2e" % (lab, np.abs(vec - stacked).max()), witness={"pattern": lab},
+                            signature="numeric-lists/pack-coefficients", replay={"callable": "checks.c14:replay_numeric_split", "kwargs": {}, "confirmed": True})
+        pv = BL.projections_from_grid_functions_list(fl, [dp0, p1])
+        pref = np.concatenate([fl[0].projections(dp0), fl[1].projections(p1)])
+        if np.abs(pv - pref).max() > 1e-14:
+            return violated("projections_from_grid_functions_list(%s) loses data: max deviation %.2e" % (lab, np.abs(pv - pref).max()), witness={"pattern": lab},
+                            signature="numeric-lists/pack-projections", replay={"callable": "checks.c14:replay_numeric_split", "kwargs": {}, "confirmed": True})
+        out = blk * fl
+        got = np.concatenate([out[0].projections(), out[1].projections()])
+        e = Z.relerr(got, Wd @ stacked)
+        if e > 1e-12:
+            return violated("blocked operator applied to %s: projections differ from weak_form().to_dense() @ coefficients by %.2e" % (lab, e), witness={"pattern": lab},
+                            signature="numeric-lists/apply", replay={"callable": "checks.c14:replay_numeric_split", "kwargs": {}, "confirmed": True})
+        back = BL.grid_function_list_from_coefficients(stacked, [dp0, p1])
+        if max(np.abs(back[i].coefficients - cs[i]).max() for i in range(2)) > 1e-15:
+            return violated("grid_function_list_from_coefficients(%s) does not return the blocks" % lab, signature="numeric-lists/unpack", replay={"confirmed": True})
+    return held("%d operators, worst %.1e; mixed real/complex grid-function lists (4 patterns) packed, unpacked and mapped by a blocked operator" % (len(ops), worst))
+
+
+def replay_numeric_split():
+    r = ob_numeric_split()
+    return {"violates": r["status"] == "violated", "detail": r["detail"]}
 
 
 def main():
